@@ -73,7 +73,9 @@ impl<'a> Iterator for Matches<'a> {
         while self.window <= self.text.len() {
             let mut occ = None;
             // bit mask of ones, all states active
-            let mut active = (1u64 << self.bndm.m) - 1;
+            let mut active = 1u64
+                .checked_shl(self.bndm.m as u32)
+                .map_or(u64::MAX, |b| b - 1);
             let (mut j, mut lastsuffix) = (1, 0);
             // while not in fail state
             while active != 0 {
